@@ -325,7 +325,9 @@ pub fn generate(seed: u64, k_seeds: usize) -> Sc {
     r.shuffle(&mut affs);
     affs.truncate(n_aff - 1);
     affs.insert(0, "Default");
-    let start_year = r.range(2017, 2022) as i32;
+    // mostly 2017 and later (daily series); a quarter of the inputs lie in the years of the noon
+    // series, whose published values have four or five decimals and may end in 0
+    let start_year = if r.chance(1, 4) { r.range(2011, 2015) as i32 } else { r.range(2017, 2022) as i32 };
     let span_days = *r.pick(&[120i64, 365, 500, 800, 1000]);
     let settle_off = *r.pick(&[0i64, 1, 2, 2, 3]);
     let usd = r.chance(1, 2);
